@@ -272,28 +272,32 @@ fn obs_map(log: &[Ev], nk: usize) -> Vec<u64> {
     m
 }
 
-/// P-monitor SingleWorker: a further worker for a pair is created only after a removal
+/// P-monitor SingleWorker: a further worker for a pair is created only after the map entry of an
+/// earlier one was removed.  A removal is bracketed by map_remove_begin .. map_remove_end and
+/// takes effect somewhere in between, so a removal that reported success counts from its begin.
 fn single_worker_ok(log: &[Ev]) -> Result<(), String> {
-    let mut ins: HashMap<u64, i64> = HashMap::new();
-    let mut rem: HashMap<u64, i64> = HashMap::new();
-    let mut present: HashMap<u64, bool> = HashMap::new();
+    // (begin seq, pair) of the removals that removed an entry
+    let mut removals: Vec<(u64, u64)> = vec![];
+    for (i, e) in log.iter().enumerate() {
+        if e.kind != "map_remove_begin" {
+            continue;
+        }
+        let next = log[i + 1..].iter().find(|x| x.task == e.task && (x.kind == "map_remove" || x.kind == "map_remove_end"));
+        if let Some(x) = next {
+            if x.kind == "map_remove" {
+                removals.push((e.seq, e.k));
+            }
+        }
+    }
+    let mut ins: HashMap<u64, usize> = HashMap::new();
     for e in log {
-        match e.kind.as_str() {
-            "map_insert" => {
-                *ins.entry(e.k).or_default() += 1;
-                if *present.get(&e.k).unwrap_or(&false) {
-                    return Err(format!("worker {} inserted for pair {} while another worker is in the map", e.w, e.k));
-                }
-                present.insert(e.k, true);
-                if ins[&e.k] > rem.get(&e.k).copied().unwrap_or(0) + 1 {
-                    return Err(format!("pair {}: {} workers started with only {} removals", e.k, ins[&e.k], rem.get(&e.k).copied().unwrap_or(0)));
-                }
+        if e.kind == "map_insert" {
+            let n = ins.entry(e.k).or_default();
+            *n += 1;
+            let rem = removals.iter().filter(|(s, k)| *k == e.k && *s < e.seq).count();
+            if *n > rem + 1 {
+                return Err(format!("pair {}: worker {} is the {}. worker started although only {} map entries were removed before", e.k, e.w, *n, rem));
             }
-            "map_remove" => {
-                *rem.entry(e.k).or_default() += 1;
-                present.insert(e.k, false);
-            }
-            _ => {}
         }
     }
     Ok(())
@@ -881,6 +885,11 @@ fn record_one(seed: u64) -> RecOut {
         3600.0,
         1.0,
     );
+    // one run in eight follows a directed scenario: a cached_path caller creates the worker, the
+    // manager is dropped before the worker's first poll, handles of that worker are awaited
+    // (the only situation in which the notification of the exit path is what releases a waiter)
+    let directed = rng.chance(1, 8);
+    let slow_start = directed;
     // yield points: seeded per (run, thread-local counter)
     let ycount = Arc::new(AtomicU64::new(0));
     {
@@ -888,7 +897,14 @@ fn record_one(seed: u64) -> RecOut {
         verif_sync::set_yield(Some(Arc::new(move |name: &'static str| {
             let n = yc.fetch_add(1, Ordering::Relaxed);
             let mut r = Rng::new(seed ^ (n.wrapping_mul(0x2545_F491_4F6C_DD1D)) ^ (name.len() as u64) << 40);
-            match r.below(8) {
+            if name == "worker.start" && slow_start {
+                // directed scenario: the manager is dropped before the worker's first poll
+                std::thread::sleep(Duration::from_micros(600));
+                return;
+            }
+            // the windows right after a critical section of a waiter are stretched more often
+            let hot = name == "await.registered" || name == "handle.after_load" || name == "fetch.before_finish";
+            match r.below(if hot { 5 } else { 8 }) {
                 0 => std::thread::sleep(Duration::from_micros(r.range(20, 400))),
                 1 => std::thread::yield_now(),
                 2 => {
@@ -923,6 +939,25 @@ fn record_one(seed: u64) -> RecOut {
         // plan: interleave caller arrivals with stop / drop / pauses
         let mut to_start: Vec<usize> = (0..ncallers).collect();
         rng.shuffle(&mut to_start);
+        if directed {
+            let i = to_start.pop().unwrap();
+            let name = format!("c1_{}", i + 1);
+            meta_callers.insert(name.clone(), json!({"kind": "cached", "k": 1}));
+            hev("caller_start", &name, 0, 1, "cached");
+            let j = spawn_api_caller(mgr.as_ref().unwrap(), &name, "cached", 1);
+            names.insert(j.id(), name.clone());
+            callers.push(Caller { name, join: Some(j), res: None, started: Some(Instant::now()) });
+            *stats.entry("callers_cached".into()).or_default() += 1;
+            *stats.entry("directed".into()).or_default() += 1;
+            let t0 = Instant::now();
+            while verif_sync::handles().is_empty() && t0.elapsed() < Duration::from_millis(200) {
+                std::hint::spin_loop();
+            }
+            hev("drop_begin", "", 0, 0, "");
+            mgr = None;
+            hev("drop", "", 0, 0, "");
+            *stats.entry("drops".into()).or_default() += 1;
+        }
         while !to_start.is_empty() || mgr.is_some() {
             nsteps += 1;
             let choice = rng.below(10);
@@ -958,7 +993,7 @@ fn record_one(seed: u64) -> RecOut {
                 let k = rng.range(1, nk);
                 mgr.as_ref().unwrap().stop_managing_paths(src_ia(), dst_ia(k));
                 *stats.entry("stops".into()).or_default() += 1;
-            } else if (choice == 7 && nsteps > 2) || (to_start.is_empty() && mgr.is_some()) {
+            } else if (choice == 7 && nsteps > 1) || (to_start.is_empty() && mgr.is_some()) {
                 if mgr.is_some() {
                     hev("drop_begin", "", 0, 0, "");
                     mgr = None;
